@@ -16,7 +16,7 @@ ASSUMPTIONS = [
 ]
 
 NAMES = ['p', 'a:b', 'ü', 'x[0]']
-NSS = [(), ('a',), ('a', 'b'), ('a:b',), ('ü', '')]
+NSS = [(), ('a',), ('a', 'b'), ('a:b',), ('ü', ''), ('',), ('', 'a'), ('', ''), (':',), ('a', '', 'b'), ('', '', 'a')]
 
 
 def _vz():
@@ -250,7 +250,7 @@ def make_md(kind):
   for ns in NSS:
     tgt = md.abs_ns(vz.Namespace(ns))
     if kind in ('str', 'both'):
-      tgt['k'] = 'v'
+      tgt['k'] = 'v' + '/'.join(ns)       # distinct per namespace: a collision of two namespaces loses one of them
       tgt['empty'] = ''
     if kind in ('proto', 'both'):
       tgt['p'] = duration_pb2.Duration(seconds=3, nanos=5)
